@@ -560,10 +560,19 @@ def c17(res, tier, seed, lib):
         else:
             distinct = {i.packed for i in its}
             res.check(len(got) == len(distinct) and all(g in printed for g in got), "unique-one-per-rgb", "cli:sort-by", inp, str(got))
+        # two different colours can print alike (one decimal of a per cent) and have different keys: a printed line
+        # then stands for any of them, and the order is judged with the smallest / largest key it may have
+        klo, khi = {}, {}
+        for i in its:
+            klo[i.hsl] = min(klo.get(i.hsl, i.keys[key]), i.keys[key])
+            khi[i.hsl] = max(khi.get(i.hsl, i.keys[key]), i.keys[key])
         seq = [ks.get(g) for g in got]
         if None not in seq:
-            ordered = all(seq[j] <= seq[j + 1] for j in range(len(seq) - 1)) if not rev else all(seq[j] >= seq[j + 1] for j in range(len(seq) - 1))
-            res.check(ordered, "non-decreasing-in-key", "cli:sort-by", inp, "%s keys %s" % (got, seq))
+            if not rev:
+                ordered = all(klo[got[j]] <= khi[got[j + 1]] for j in range(len(got) - 1))
+            else:
+                ordered = all(khi[got[j]] >= klo[got[j + 1]] for j in range(len(got) - 1))
+            res.check(ordered, "non-decreasing-in-key", "cli:sort-by", inp, "%s keys %s" % (got[:60], seq[:60]))
         # stability: among equal keys the input order is kept (packed-RGB order under --unique)
         if seq and None not in seq and len(set(printed)) == len(printed):
             pos = {}
